@@ -26,4 +26,17 @@ InitShapesMulti ==
         /\ count = S.count /\ live = S.live /\ f = S.f /\ avail = S.avail /\ retired = S.retired
         /\ gen = S.gen /\ val = S.val /\ capLow = S.capLow /\ tok = S.tok /\ nissued = S.nissued
         /\ path = pth /\ last = NoResult
+(***************************************************************************)
+(* C14 at depth: a root whose first child starts an only-child chain of    *)
+(* DeepLen nodes and whose second child is a leaf - more than 16 / 32      *)
+(* guide levels on one line, with "|   " guides far to the left of blank   *)
+(* ones.  Used with EmitMode = "print".                                    *)
+(***************************************************************************)
+DeepVector(n) == [i \in 1..n |-> IF i = 1 THEN 0 ELSE IF i = n THEN 1 ELSE i - 1]
+InitDeepPrint ==
+  \E n \in {20, 22} :
+     LET p == DeepVector(n)  pth == CanonPath(p, 1)  S == RunPath(InitState(0), pth) IN
+     /\ count = S.count /\ live = S.live /\ f = S.f /\ avail = S.avail /\ retired = S.retired
+     /\ gen = S.gen /\ val = S.val /\ capLow = S.capLow /\ tok = S.tok /\ nissued = S.nissued
+     /\ path = pth /\ last = NoResult
 =============================================================================
